@@ -1067,7 +1067,18 @@ func (c *Compiler) compileList(node *ast.List) error {
 func (c *Compiler) compileMap(node *ast.Map) error {
 	items := node.Items()
 	count := len(items)
-	for k, v := range items {
+	// The AST keeps the entries in a Go map. Compile them in source order so
+	// that the bytecode, the evaluation order of the entries and the winner
+	// among duplicate keys do not depend on map iteration order.
+	keys := make([]ast.Expression, 0, count)
+	for k := range items {
+		keys = append(keys, k)
+	}
+	sort.Slice(keys, func(i, j int) bool {
+		return keys[i].Token().StartPosition.Char < keys[j].Token().StartPosition.Char
+	})
+	for _, k := range keys {
+		v := items[k]
 		switch k := k.(type) {
 		case *ast.String:
 			if err := c.compile(k); err != nil {
